@@ -2,7 +2,7 @@
 From Coq Require Import List Bool String.
 From RG.Base Require Import Outcome.
 From RG.Filters Require Import FilterIR Totality TotalityExt.
-From RGW Require Import Gen_FilterTotal Gen_FilterTotal2.
+From RGW Require Import Gen_FilterTotal Gen_FilterTotal2 Gen_FilterEnums.
 Import ListNotations.
 Local Open Scope string_scope.
 
@@ -142,3 +142,10 @@ Qed.
 Lemma state_reuse_ok :
   state_reuse_okb gen_evalenv_copied gen_evalenv_refreshed gen_state_reset gen_state_evalenv_from gen_state_var gen_given_state_calls = true.
 Proof. vm_compute. reflexivity. Qed.
+
+(* every Object.Is name the loader accepts has a predicate in makeObjectIsFilter (go2coq filterenums) *)
+Lemma enum_dispatch_ok : enum_dispatch_okb gen_object_is_accepted gen_object_is_dispatch = true.
+Proof. vm_compute. reflexivity. Qed.
+
+Lemma object_is_call_total n : In n gen_object_is_accepted -> enum_call gen_object_is_dispatch n = Ok tt.
+Proof. exact (enum_call_total _ _ enum_dispatch_ok n). Qed.
